@@ -187,6 +187,7 @@ func (w *world) exchange(x exchange, xid string) (o obs) {
 		return
 	}
 	defer resp.Body.Close()
+	defer resp.Body.Close() // closing twice is harmless and common (a deferred Close plus an explicit one)
 	var buf bytes.Buffer
 	i := 0
 	scratch := make([]byte, 1<<16)
